@@ -15,6 +15,8 @@ open Amqp.Gen.Fsm Amqp.Gen.SessLife
 
 inductive Event where
   | peerEnd (withError : Bool)
+  /-- the peer's end, taken up while frames of the session's links are still queued for it -/
+  | peerEndQueued (withError : Bool)
   /-- another frame of the peer on this session; `ok = false`: acting on it fails (unattached
       handle, transfer to a sender, …) -/
   | peerFrame (ok : Bool)
@@ -94,11 +96,27 @@ def onIncomingEnd (s : St) (we : Bool) : St × List Out × Option Err :=
       | none => ({ s with ss := c, linksClosed := true }, [], some .illegalState)
     else ({ s with ss := c }, [], if we then some .remoteEndedWithError else none)
 
+/-- `on_incoming(End)` with link frames still queued: the state has left MAPPED when the queue is drained, the
+    first queued frame is refused (`on_outgoing_link_frames`) and the arm leaves before it has answered -/
+def onIncomingEndQueued (s : St) (we : Bool) : St × List Out × Option Err :=
+  match Sess.on_incoming_end s.ss with
+  | none => (s, [], some .illegalState)
+  | some c =>
+    if c = .endReceived then
+      if Sess.on_outgoing_link_frames_arm c = 0 then onIncomingEnd s we
+      else ({ s with ss := c, linksClosed := true }, [], some .illegalState)
+    else ({ s with ss := c }, [], if we then some .remoteEndedWithError else none)
+
 def settle (s : St) : St := if s.ss = .unmapped then { s with phase := .stopped } else s
 
 def stepRunning (s : St) : Event → St × List Out
   | .peerEnd we =>
     let (s1, os, err) := onIncomingEnd s we
+    match err with
+    | none => (settle s1, os)
+    | some e => let (s2, os2) := onError s1 e; (s2, os ++ os2)
+  | .peerEndQueued we =>
+    let (s1, os, err) := onIncomingEndQueued s we
     match err with
     | none => (settle s1, os)
     | some e => let (s2, os2) := onError s1 e; (s2, os ++ os2)
@@ -114,7 +132,7 @@ def stepRunning (s : St) : Event → St × List Out
     else let (s2, os2) := onError s .illegalState; (s2, os2)
 
 def stepWait (s : St) (discard thenEnd : Bool) : Event → St × List Out
-  | .peerEnd we =>
+  | .peerEnd we | .peerEndQueued we =>
     if thenEnd then
       match Sess.on_incoming_end s.ss with
       | some c => if we then ({ overwrite s .remoteEndedWithError with ss := c, phase := .stopped }, [])
